@@ -8,8 +8,9 @@ ID = "C14"
 THEOREMS = ["C14_status", "C14_string_api", "C14_cli", "C14_success_writes", "C14_failure_classes"]
 RULE = ("fault enumeration: valid generated programs x a definite error of every class (bad character, unterminated "
         "string/comment, unknown keyword, syntax error, undefined symbol in operand / data / *=, undefined macro, too few "
-        "arguments, unsupported mode, unsupported width, out-of-range branch, unmapped *=, missing .include/.incbin/.table/"
-        ".include_ips file, malformed patch, RAM branch, phase error) injected at a random statement position x entry point "
+        "arguments, unsupported mode, unsupported width, out-of-range branch, unmapped *=, running off the last mapped bank, missing .include/.incbin/.table/"
+        ".include_ips file, malformed patch, RAM branch, phase error) injected at a random statement position, the one-statement "
+        "faults also inside each enclosing construct (.if true/else/negative/nested, block, scope, macro, .for, .if in a macro), x entry point "
         "(string API, assemble, assemble_as_patch, x816 command line in a subprocess); plus the unmodified programs; "
         "non-trivial: every case (each is one program x entry points)")
 PROVED_NOTE = ("proved on the front-end model (Model/Assemble.v): status 0 / None / exit 0 and the success message are given "
@@ -49,6 +50,18 @@ FAULTS = [
     ("included:bad-index", ".include 'inc_badindex.s'"), ("included:unterminated-string", ".include 'inc_string.s'"),
     ("included:syntax", ".include 'inc_syntax.s'"), ("included:undefined", ".include 'inc_undef.s'"),
     ("included:nested-bad-suffix", ".include 'inc_outer.s'"),
+    ("undefined-assign", "zz_x := zz_nowhere"), ("undefined-for-bound", ".for zz_i := 0, zz_nowhere {\nnop\n}"),
+    # the program counter walks out of the last mapped bank (no *= onto an unmapped bank involved)
+    ("run-off-mapped", "*=0x6FFFFC\n.dw 1, 2, 3, 4\nnop"),
+]
+# faults that are one complete statement: also planted inside every kind of enclosing construct
+WRAPPABLE = ["undefined-macro", "code-lookup", "undefined-assign", "undefined-for-bound", "too-few-arguments",
+             "undefined-operand", "unsupported-mode", "missing-incbin", "undefined-org", "struct", "text-without-table"]
+WRAPPERS = [
+    ("if-true", ".if 1 {\n%s\n}"), ("if-else", ".if 0 {\nnop\n} else {\n%s\n}"), ("if-negative", ".if 0 - 3 {\n%s\n}"),
+    ("block", "{\n%s\n}"), ("scope", ".scope zz_sc {\n%s\n}"), ("macro", ".macro zz_w() {\n%s\n}\nzz_w()"),
+    ("for", ".for zz_k := 0, 2 {\n%s\n}"), ("if-in-macro", ".macro zz_w2(c) {\n.if c {\n%s\n}\n}\nzz_w2(1)"),
+    ("if-if", ".if 1 {\n.if 2 {\n%s\n}\n}"),
 ]
 FILES = {"pad200.bin": [0xEA] * 200, "pad128.bin": [0xEA] * 128, "pad127.bin": [0xEA] * 127,
          "bad.ips": list(b"PATCH\x00\x00\x10\x00\x05ab"),
@@ -62,8 +75,14 @@ def cases(ctx):
     out = []
     reps = 2 if tier == "quick" else 30
     cli_budget = 40 if tier == "quick" else 600
-    for rep in range(reps):
-        for kind, fault in FAULTS:
+    first = {}
+    for kind, fault in FAULTS:
+        first.setdefault(kind, fault)
+    planted = [(k, f) for _ in range(reps) for k, f in FAULTS]
+    for rep in range(1 if tier == "quick" else 4):
+        planted += [(f"{k}@{wn}", wt % first[k]) for k in WRAPPABLE for wn, wt in WRAPPERS]
+    for kind, fault in planted:
+        if True:
             rom = rng.choice(["low", "low", "high"])
             g = progen.Gen(rng, rom=rom, features={"blocks", "scopes", "macros", "if", "for", "data", "ascii", "symbols"})
             tree = g.program(rng.randrange(1, 7))
@@ -77,6 +96,8 @@ def cases(ctx):
             pos = rng.choice(spots) if spots else len(lines)
             if kind == "unmapped-org" and rom == "high":
                 fault = "*=0x200000\nnop"
+            if kind == "run-off-mapped" and rom == "high":
+                fault = "*=0xFFFFFC\n.dw 1, 2, 3, 4\nnop"
             src = "\n".join(lines[:pos] + [fault] + lines[pos:])
             fmt = rng.choice(["ips", "sfc"])
             # only the files this fault opens (the model reports the first listed include whose scan fails)
